@@ -177,3 +177,211 @@ Proof.
       * rewrite collect_multi_bad. split; [contradiction|].
         intros (k & _ & _ & Hm). discriminate.
 Qed.
+
+(* ------------------------------------------------------------------ children lists *)
+
+Lemma find_upd_child_same {A} (d : A) k f cs :
+  find_child k (upd_child d k f cs) =
+  Some (f (match find_child k cs with Some c => c | None => d end)).
+Proof.
+  induction cs as [|[k' c] cs IH]; cbn.
+  - now rewrite str_eqb_refl.
+  - destruct (str_eqb k k') eqn:E; cbn; rewrite E; [reflexivity|assumption].
+Qed.
+
+Lemma find_upd_child_other {A} (d : A) k k2 f cs :
+  k2 <> k -> find_child k2 (upd_child d k f cs) = find_child k2 cs.
+Proof.
+  intros Hn. induction cs as [|[k' c] cs IH]; cbn.
+  - apply str_eqb_neq in Hn. now rewrite Hn.
+  - destruct (str_eqb_spec k k') as [<-|Hk]; cbn.
+    + apply str_eqb_neq in Hn. now rewrite Hn.
+    + destruct (str_eqb k2 k'); [reflexivity|assumption].
+Qed.
+
+Lemma existsb_str_In k l : existsb (str_eqb k) l = true <-> In k l.
+Proof.
+  rewrite existsb_exists. split.
+  - intros (x & Hin & E). apply str_eqb_eq in E. now subst.
+  - intros Hin. exists k. split; [assumption|apply str_eqb_refl].
+Qed.
+
+Lemma names_upd_child {A} (d : A) k f cs :
+  names (upd_child d k f cs) = if existsb (str_eqb k) (names cs) then names cs else names cs ++ [k].
+Proof.
+  unfold names. induction cs as [|[k' c] cs IH]; cbn; [reflexivity|].
+  destruct (str_eqb k k') eqn:E; cbn; [reflexivity|]. rewrite IH.
+  now destruct (existsb (str_eqb k) (map fst cs)).
+Qed.
+
+Lemma NoDup_snoc {A} (l : list A) x : NoDup l -> ~ In x l -> NoDup (l ++ [x]).
+Proof.
+  induction l as [|y l IH]; cbn; intros Hnd Hni.
+  - constructor; [intros []|constructor].
+  - inversion Hnd; subst. constructor.
+    + rewrite in_app_iff. intros [H|[H|[]]]; [contradiction|]. apply Hni. now left.
+    + apply IH; [assumption|]. intros H. apply Hni. now right.
+Qed.
+
+Lemma NoDup_names_upd_child {A} (d : A) k f cs :
+  NoDup (names cs) -> NoDup (names (upd_child d k f cs)).
+Proof.
+  intros Hnd. rewrite names_upd_child.
+  destruct (existsb (str_eqb k) (names cs)) eqn:E; [assumption|].
+  apply NoDup_snoc; [assumption|].
+  intros Hin. apply existsb_str_In in Hin. congruence.
+Qed.
+
+Lemma Forall_upd_child {A} (P : A -> Prop) (d : A) k f cs :
+  Forall (fun kc => P (snd kc)) cs -> (forall c, P c -> P (f c)) -> P d ->
+  Forall (fun kc => P (snd kc)) (upd_child d k f cs).
+Proof.
+  intros Hall Hf Hd. induction Hall as [|[k' c] cs Hc Hcs IH]; cbn.
+  - constructor; [now apply Hf|constructor].
+  - destruct (str_eqb k k'); constructor; try assumption. now apply Hf.
+Qed.
+
+Lemma find_mod_child {A} k k2 (f : A -> A) cs :
+  find_child k2 (mod_child k f cs) =
+  if str_eqb k2 k then option_map f (find_child k cs) else find_child k2 cs.
+Proof.
+  induction cs as [|[k' c] cs IH]; cbn.
+  - now destruct (str_eqb k2 k).
+  - destruct (str_eqb_spec k k') as [<-|Hk]; cbn.
+    + destruct (str_eqb k2 k); reflexivity.
+    + rewrite IH. destruct (str_eqb_spec k2 k) as [->|Hn].
+      * apply str_eqb_neq in Hk. now rewrite Hk.
+      * reflexivity.
+Qed.
+
+Lemma names_mod_child {A} k (f : A -> A) cs : names (mod_child k f cs) = names cs.
+Proof.
+  unfold names. induction cs as [|[k' c] cs IH]; cbn; [reflexivity|].
+  destruct (str_eqb k k'); cbn; [reflexivity|now rewrite IH].
+Qed.
+
+Lemma Forall_mod_child {A} (P : A -> Prop) k f cs :
+  Forall (fun kc => P (snd kc)) cs -> (forall c, P c -> P (f c)) ->
+  Forall (fun kc => P (snd kc)) (mod_child k f cs).
+Proof.
+  intros Hall Hf. induction Hall as [|[k' c] cs Hc Hcs IH]; cbn; [constructor|].
+  destruct (str_eqb k k'); constructor; try assumption. now apply Hf.
+Qed.
+
+Lemma NoDup_names_filter {A} (g : str * A -> bool) cs :
+  NoDup (names cs) -> NoDup (names (filter g cs)).
+Proof.
+  induction cs as [|[k c] cs IH]; cbn; [constructor|].
+  intros Hnd. inversion Hnd as [|? ? Hni Hnd']; subst.
+  destruct (g (k, c)); cbn; [|now apply IH].
+  constructor; [|now apply IH].
+  intros Hin. apply Hni. unfold names in *. apply in_map_iff in Hin as ([k2 c2] & E & Hin).
+  cbn in E. subst k2. apply filter_In in Hin as [Hin _].
+  change k with (fst (k, c2)). now apply in_map.
+Qed.
+
+Lemma find_filter {A} (g : str * A -> bool) k cs :
+  NoDup (names cs) ->
+  find_child k (filter g cs) =
+  match find_child k cs with Some c => if g (k, c) then Some c else None | None => None end.
+Proof.
+  induction cs as [|[k' c] cs IH]; cbn; [reflexivity|].
+  intros Hnd. inversion Hnd as [|? ? Hni Hnd']; subst.
+  destruct (str_eqb_spec k k') as [<-|Hk].
+  - destruct (g (k, c)) eqn:Eg; cbn.
+    + now rewrite str_eqb_refl.
+    + rewrite IH by assumption.
+      destruct (find_child k cs) eqn:Ef; [|reflexivity].
+      exfalso. apply Hni. apply find_child_In in Ef.
+      change k with (fst (k, a)). now apply in_map.
+  - destruct (g (k', c)); cbn.
+    + apply str_eqb_neq in Hk. rewrite Hk. now apply IH.
+    + now apply IH.
+Qed.
+
+Lemma find_map_kids {A B} (g : str -> A -> B) k cs :
+  find_child k (map (fun kc => (fst kc, g (fst kc) (snd kc))) cs) = option_map (g k) (find_child k cs).
+Proof.
+  induction cs as [|[k' c] cs IH]; cbn; [reflexivity|].
+  destruct (str_eqb_spec k k') as [<-|Hk]; [reflexivity|assumption].
+Qed.
+
+Lemma lookup_obsolete {V} (n : node V) q : is_obsolete n = true -> lookup n q = None.
+Proof.
+  destruct n as [[x|] [|kc cs]]; cbn; try discriminate. intros _.
+  destruct q; reflexivity.
+Qed.
+
+Lemma lookup_empty {V} q : lookup (@empty_node V) q = None.
+Proof. now apply lookup_obsolete. Qed.
+
+(* looking up below a trimmed children list is the same as below the untrimmed one *)
+Lemma lookup_trim {V} (v : option V) cs q :
+  NoDup (names cs) -> lookup (Node v (trim_kids cs)) q = lookup (Node v cs) q.
+Proof.
+  intros Hnd. destruct q as [|k q]; [reflexivity|].
+  rewrite !lookup_cons. unfold trim_kids. rewrite find_filter by assumption.
+  destruct (find_child k cs) as [c|]; [|reflexivity]. cbn [snd].
+  destruct (is_obsolete c) eqn:E; cbn; [|reflexivity].
+  symmetry. now apply lookup_obsolete.
+Qed.
+
+(* ------------------------------------------------------------------ set_at *)
+
+Theorem lookup_set_at {V} p (e : V) : forall n q,
+  lookup (set_at p e n) q = if path_eqb p q then Some e else lookup n q.
+Proof.
+  induction p as [|k p IH]; intros [v cs] q.
+  - destruct q; reflexivity.
+  - cbn [set_at nval nkids]. destruct q as [|k2 q]; [reflexivity|].
+    rewrite !lookup_cons. cbn [path_eqb].
+    destruct (str_eqb_spec k k2) as [<-|Hn].
+    + rewrite find_upd_child_same, IH. cbn [andb].
+      destruct (path_eqb p q); [reflexivity|].
+      destruct (find_child k cs); [reflexivity|apply lookup_empty].
+    + rewrite find_upd_child_other by congruence. reflexivity.
+Qed.
+
+Lemma wfn_empty {V} : wfn (@empty_node V).
+Proof. cbn. split; [constructor|exact I]. Qed.
+
+Theorem wfn_set_at {V} p (e : V) : forall n, wfn n -> wfn (set_at p e n).
+Proof.
+  induction p as [|k p IH]; intros [v cs] Hwf.
+  - exact Hwf.
+  - cbn [set_at nval nkids]. apply wfn_unfold in Hwf as [Hnd Hc]. apply wfn_unfold. split.
+    + now apply NoDup_names_upd_child.
+    + apply Forall_upd_child; [assumption|exact IH|exact wfn_empty].
+Qed.
+
+(* ------------------------------------------------------------------ del_at *)
+
+Theorem wfn_del_at {V} p : forall (n : node V), wfn n -> wfn (del_at p n).
+Proof.
+  induction p as [|k p IH]; intros [v cs] Hwf.
+  - exact Hwf.
+  - cbn [del_at nkids nval]. destruct (find_child k cs); [|assumption].
+    apply wfn_unfold in Hwf as [Hnd Hc]. apply wfn_unfold. split.
+    + apply NoDup_names_filter. now rewrite names_mod_child.
+    + unfold trim_kids. apply Forall_forall. intros kc Hin. apply filter_In in Hin as [Hin _].
+      revert kc Hin. apply Forall_forall. now apply Forall_mod_child.
+Qed.
+
+Theorem lookup_del_at {V} p : forall (n : node V) q,
+  wfn n -> lookup (del_at p n) q = if path_eqb p q then None else lookup n q.
+Proof.
+  induction p as [|k p IH]; intros [v cs] q Hwf.
+  - destruct q; reflexivity.
+  - cbn [del_at nkids nval]. apply wfn_unfold in Hwf as [Hnd Hc].
+    destruct (find_child k cs) as [c|] eqn:Ef.
+    + rewrite lookup_trim by now rewrite names_mod_child.
+      destruct q as [|k2 q]; [reflexivity|].
+      rewrite !lookup_cons, find_mod_child. cbn [path_eqb].
+      destruct (str_eqb_spec k k2) as [<-|Hn].
+      * rewrite str_eqb_refl, Ef. cbn [option_map andb]. apply IH.
+        rewrite Forall_forall in Hc. exact (Hc _ (find_child_In _ _ _ Ef)).
+      * apply not_eq_sym in Hn. apply str_eqb_neq in Hn. now rewrite Hn.
+    + destruct q as [|k2 q]; [reflexivity|]. cbn [path_eqb].
+      destruct (str_eqb_spec k k2) as [<-|Hn]; [|reflexivity].
+      rewrite lookup_cons, Ef. now destruct (path_eqb p q).
+Qed.
